@@ -14,6 +14,7 @@ import (
 	"sync/atomic"
 	"unsafe"
 	"verif/harness/zoo"
+	"verif/harness/zoo/alike"
 
 	gojson "github.com/goccy/go-json"
 
@@ -170,6 +171,74 @@ func c14Runtime(c *rt.Ctx, sub int, k int) {
 		c.Violate(rt.Violation{Monitor: "self-ident", Entry: "runtime-type", Kind: "decoded-by-foreign-program", Ctx: "structof", Detail: fmt.Sprintf("run-time type %d: %v %v", k, p.Elem().Interface(), err), Sub: sub})
 	}
 	c.Eval(1)
+}
+
+// c14NameAlikes: types of another package named like the types the library special-cases
+// (Number, RawMessage, Time ...), also as members, elements, keys and behind pointers, and run-time
+// types derived from them. encoding/json treats them as the ordinary string / []byte / struct
+// types they are; so must a library that recognises its special cases by type identity.
+func c14NameAlikes(c *rt.Ctx, sub0 int) {
+	n := alike.Number("A-17")
+	vals := []any{alike.Number("42"), alike.Number("A-17"), alike.Number(""), &n, []alike.Number{"1e5", "x"}, map[alike.Number]int{"12": 1, "k": 2}, map[string]alike.Number{"a": "007"},
+		alike.RawMessage("{not json"), alike.RawMessage(nil), []alike.RawMessage{[]byte("ab")}, alike.Time{Sec: 5, Zone: "z"}, alike.Duration(90), alike.Marshaler{V: 3},
+		alike.Holder{N: "n-1", R: []byte{1, 2, 255}, T: alike.Time{Sec: 1}, D: 7, M: alike.Marshaler{V: 2}, PN: &n, LN: []alike.Number{"", "0x10"}, MN: map[alike.Number]alike.Number{"k": "v"}},
+		[]any{alike.Number("in-iface"), alike.RawMessage("raw")}, struct {
+			A alike.Number `json:"a,string"`
+			B alike.Number `json:"b,omitempty"`
+		}{"s", ""}}
+	// run-time types built on them
+	vals = append(vals, reflect.MakeSlice(reflect.SliceOf(reflect.TypeOf(alike.Number(""))), 2, 2).Interface(),
+		reflect.New(reflect.StructOf([]reflect.StructField{{Name: "N", Type: reflect.TypeOf(alike.Number(""))}, {Name: "R", Type: reflect.TypeOf(alike.RawMessage(nil))}})).Elem().Interface())
+	for i, x := range vals {
+		sub := sub0 + i
+		if !c.Cur(sub, fmt.Sprintf("shapes=core\ntype named like a special-cased one: %T", x)) {
+			continue
+		}
+		want, serr := stdjson.Marshal(x)
+		var got []byte
+		var gerr error
+		pan, msg, _ := rt.Guard(func() { got, gerr = gojson.Marshal(x) })
+		c.Eval(1)
+		if pan || (gerr != nil) != (serr != nil) || (serr == nil && string(got) != string(want)) {
+			c.Violate(rt.Violation{Monitor: "self-ident", Entry: "name-alike", Kind: "encoded-by-foreign-program", Ctx: fmt.Sprintf("%T", x),
+				Detail: fmt.Sprintf("%T: go-json %s err=%v panic=%v %s; encoding/json %s err=%v", x, got, gerr, pan, msg, want, serr), Sub: sub})
+			continue
+		}
+		if serr != nil {
+			continue
+		}
+		// decode encoding/json's text back into a fresh value of the same type, both modes
+		t := reflect.TypeOf(x)
+		for _, stream := range []bool{false, true} {
+			g, s := reflect.New(t), reflect.New(t)
+			var derr error
+			pan, msg, _ = rt.Guard(func() {
+				if stream {
+					derr = gojson.NewDecoder(bytes.NewReader(want)).Decode(g.Interface())
+				} else {
+					derr = gojson.Unmarshal(want, g.Interface())
+				}
+			})
+			c.Eval(1)
+			sderr := stdjson.Unmarshal(want, s.Interface())
+			if pan || (derr != nil) != (sderr != nil) || (sderr == nil && !reflect.DeepEqual(g.Elem().Interface(), s.Elem().Interface())) {
+				gb, _ := stdjson.Marshal(g.Elem().Interface())
+				c.Violate(rt.Violation{Monitor: "self-ident", Entry: "name-alike", Kind: "decoded-by-foreign-program", Ctx: fmt.Sprintf("%T", x),
+					Detail: fmt.Sprintf("%T from %s (stream=%v): go-json %s err=%v panic=%v %s; encoding/json err=%v", x, want, stream, gb, derr, pan, msg, sderr), Sub: sub})
+			}
+		}
+		// a JSON number into the string-kind look-alikes is a type error, as for any string
+		if t.Kind() == reflect.String {
+			g := reflect.New(t)
+			var derr error
+			rt.Guard(func() { derr = gojson.Unmarshal([]byte("17"), g.Interface()) })
+			if derr == nil {
+				c.Violate(rt.Violation{Monitor: "self-ident", Entry: "name-alike", Kind: "decoded-by-foreign-program", Ctx: fmt.Sprintf("%T", x), Detail: fmt.Sprintf("17 decoded into %T without error: %q", x, g.Elem().Interface()), Sub: sub})
+			}
+		}
+		c.NonTrivial("alike", fmt.Sprintf("%T", x), fmt.Sprint(i))
+	}
+	c.Obs("name_alike_values", int64(len(vals)))
 }
 
 // c14RuntimeDerived: the types derived from one run-time struct type (pointer chains, slice, array,
@@ -734,6 +803,7 @@ func init() {
 				}
 				c14Storm(c, 9, rounds)
 				c14IfaceMembers(c, 300000)
+				c14NameAlikes(c, 350000)
 				return
 			}
 			c.Idx--
